@@ -904,6 +904,25 @@ def gen_tag_arity():
     return out
 
 
+def gen_special_operands():
+    """every real operator with a 'special' operand (a literal 0, 0.0, 1, -1, or an expression that SymPy evaluates to 0)
+    in every position: handlers that test an operand for truthiness or identity show up here"""
+    out = []
+    specials = [lambda: cn('0'), lambda: cn('0.0'), lambda: cn('1'), lambda: cn('-1'),
+                lambda: ap('minus', ci('z'), ci('z')), lambda: ap('times', cn('0'), ci('z'))]
+    for tag in REAL_OPS:
+        if tag == 'diff':
+            continue
+        for k in range(1, 4):
+            for pos in range(k):
+                for mk in specials:
+                    f = Fresh()
+                    ops = [f.ci() for _ in range(k)]
+                    ops[pos] = mk()
+                    out.append({'kind': 'special-operand', 'tree': E('apply', [E(tag)] + ops)})
+    return out
+
+
 def gen_qualifiers():
     out = []
 
@@ -1291,8 +1310,8 @@ def evaluate(ctx, cases, impls, use_model=True):
         if mods is not None:
             ctx.corr_cases += 1
             d = compare_model(case, impl, mods[i])
-            if d is not None and case['kind'].startswith('random') and impl['cls'] == 'err' and mods[i][0] == 0 \
-                    and nowhere_defined(case['tree']):
+            if d is not None and (case['kind'].startswith('random') or case['kind'] == 'special-operand') \
+                    and impl['cls'] == 'err' and mods[i][0] == 0 and nowhere_defined(case['tree']):
                 # SymPy may refuse, while building, a sub-expression it can prove non-real (a relation over
                 # log(-Max(1.5, x, y))); the tree has no value at any sample point, the model does no such reasoning
                 STATS['refused_nowhere_defined'] = STATS.get('refused_nowhere_defined', 0) + 1
@@ -1310,7 +1329,7 @@ def nowhere_defined(tree):
 
 
 def exhaustive_cases():
-    return gen_tag_arity() + gen_qualifiers() + gen_numbers()
+    return gen_tag_arity() + gen_qualifiers() + gen_numbers() + gen_special_operands()
 
 
 def run(ctx):
@@ -1365,7 +1384,7 @@ def replay(ctx, case):
     if ctx.model_ok():
         m = vlib.model_run(FN, [sx(c['tree'])])[0]
         d = compare_model(c, impl, m)
-        if d and c['kind'].startswith('random') and impl['cls'] == 'err' and m[0] == 0 and nowhere_defined(c['tree']):
+        if d and (c['kind'].startswith('random') or c['kind'] == 'special-operand') and impl['cls'] == 'err' and m[0] == 0 and nowhere_defined(c['tree']):
             d = None
         if d:
             return 'correspondence differs: %s' % d
